@@ -57,6 +57,6 @@ def run(ctx):
     ctx.nontrivial += dropped
     ctx.extra["connection_lost_after_grant_scenarios"] = n
     ctx.extra["connection_lost_after_grant_drops"] = dropped
-    if n and dropped < n:
-        raise vf.InfraError("connloss: %d scenarios but only %d dropped connections (the fault was not exercised)" % (n, dropped))
+    if n and dropped == 0:
+        raise vf.InfraError("connloss: %d scenarios but no dropped connection (the fault was not exercised)" % n)
     ctx.rule += "; plus %d scenarios in which the provider processes the grant and the kept-alive (reused or fresh) connection is lost before a response byte" % n
